@@ -205,7 +205,7 @@ def trust_part(job, r):
         anchors = rng.choice(['good', 'good', 'good', 'other', 'none', 'both'])
         if i < 4:
             anchors = ('good', 'both')[i % 2]
-        cons_kind = rng.choice(['email', 'email', 'email+cn', 'all', 'none', 'email-off', 'cn-off', 'extra-oid', 'prefix', 'longer', 'email-longer', 'cn-longer', 'email-case', 'one-char'])
+        cons_kind = rng.choice(['email', 'email', 'email+cn', 'all', 'none', 'email-off', 'cn-off', 'extra-oid', 'prefix', 'longer', 'email-longer', 'cn-longer', 'email-case', 'one-char', 'absent-equals-previous', 'absent-chain', 'absent-first'])
         if i < 4:
             # a fixed share of all-conditions-hold cases (every job), so the positive verdict is always well represented
             cons_kind = ('email', 'email+cn', 'all', 'email')[i]
@@ -214,7 +214,15 @@ def trust_part(job, r):
                 'extra-oid': {EMAIL: subj[EMAIL], '2.5.4.7': 'Tallinn'}, 'prefix': {EMAIL: subj[EMAIL][:-1]}, 'longer': {ORG: subj[ORG] + ' '},
                 # configured value is a proper extension of the certificate's value / differs in case / certificate value is a prefix of it
                 'email-longer': {EMAIL: subj[EMAIL] + rng.choice(['x', '.evil', '1'])}, 'cn-longer': {EMAIL: subj[EMAIL], CN: subj[CN] + '.org'},
-                'email-case': {EMAIL: subj[EMAIL].upper()}, 'one-char': {COUNTRY: 'E'}}[cons_kind]
+                'email-case': {EMAIL: subj[EMAIL].upper()}, 'one-char': {COUNTRY: 'E'},
+                # an attribute the signer certificate does not have (title, organizational unit, locality), expected to hold the value that the
+                # constraint evaluated just before it matched
+                'absent-equals-previous': dict([rng.choice([(EMAIL, subj[EMAIL]), (CN, subj[CN]), (COUNTRY, subj[COUNTRY])])] * 1 + [(rng.choice(['2.5.4.12', '2.5.4.11', '2.5.4.7']), None)]),
+                'absent-chain': {CN: subj[CN], '2.5.4.11': subj[CN], '2.5.4.7': subj[CN]},
+                'absent-first': {'2.5.4.12': subj[EMAIL], EMAIL: subj[EMAIL]}}[cons_kind]
+        if cons_kind == 'absent-equals-previous':
+            ks = list(cons)
+            cons[ks[1]] = cons[ks[0]]
         c('ctx 0')
         files = {'good': [w.ca.pem], 'other': [w.ca2.pem], 'none': [], 'both': [w.ca.pem, w.ca2.pem]}[anchors]
         c('truststore 0 ' + ' '.join(files))
